@@ -364,3 +364,75 @@ def prog():
         d["V.errors_off_iff_dead[if]"] = formula(ie1) == (c.v(c1) == 0)
         d["V.errors_off_iff_dead[elif]"] = formula(ie2) == Not(And(c.v(c1) == 0, lt == 1))
         return d
+
+
+@register
+class SchemaElifElseGuardsSound(_Schema):
+    """_if(c1) .. _elif(lambda: a < b) .. _else .. _endif with assertion-only bodies, seen by a dishonest prover: the
+    guard each body runs under is DETERMINED by the wires of the two conditions -- (c1), (1-c1)(a<b), (1-c1)(1-(a<b))
+    -- in every assignment that satisfies the constraints.  (A guard derived inside another branch's region is only
+    constrained while that branch is live: a prover could then switch a taken branch off.)"""
+    name = "pysnark.branching:_if#elif_else_guards_sound"
+    vprops = ("C09", "C07", "C08")
+    fprops = ("C09", "C08", "C07")
+    sprops = ("C02", "C03", "C09")
+    cprops = ()
+    tprops = ()
+
+    def configs(self, tier):
+        return [dict(cond="secret_lc", bits=3)]
+
+    def setup(self, c, cfg):
+        apply_mode(c, "plain", bitlength=cfg["bits"])
+        br = self.br(c)
+        rt = c.rt
+        a, b = c.operand("a"), c.operand("b")
+        c1 = _cond(c, cfg["cond"], "c1")
+        self._ops = (a, b, c1)
+        self._seen = []
+        self._condval = []
+
+        def probe(tag):
+            self._seen.append((tag, rt.guard, rt.ignore_errors()))
+
+        def lt():
+            r = a < b
+            self._condval.append(r)
+            return r.lc
+        return c.client("""
+def prog():
+    _ = BranchingValues()
+    if _if(c1):
+        probe("if")
+    if _elif(lt):
+        probe("elif")
+    if _else():
+        probe("else")
+    _endif()
+    return _
+""", c1=c1, probe=probe, lt=lt, **API(br)), (), {}
+
+    def pre(self, c):
+        a, b, c1 = self._ops
+        n = c.bitlength
+        return [in_range(c.v(b) - c.v(a) - 1, n), (1 << (n + 1)) < c.p]
+
+    def post(self, c, r, *a_):
+        a, b, c1 = self._ops
+        d = {"V.all_bodies_ran": [t for t, g, ie_ in self._seen] == ["if", "elif", "else"] and len(self._condval) == 1,
+             "F.stack_empty": len(r.stack) == 0, "F.guard_state_restored": self.state_clean(c)}
+        if not d["V.all_bodies_ran"]:
+            return d
+        lt = If(c.v(a) < c.v(b), 1, 0)
+        (_, g1, ie1), (_, g2, ie2), (_, g3, ie3) = self._seen
+        d["V.else_body_guard"] = g3 is not None and Eq(c.v(g3), If(And(c.v(c1) == 0, lt == 0), 1, 0))
+        d["V.errors_off_iff_dead[else]"] = formula(ie3) == Not(And(c.v(c1) == 0, lt == 0))
+        if g1 is None or g2 is None or g3 is None:
+            return d
+        # with the inputs as given (operand wires carrying the honest values), every assignment satisfying the
+        # constraints gives the guard wires their honest values: the prover cannot move a guard
+        hyp = And(c.tied(c1), c.tied(a), c.tied(b))
+        d["S.elif_guard_determined"] = Implies(hyp, c.eva(g2) == c.v(g2) % c.p)
+        d["S.else_guard_determined"] = Implies(hyp, c.eva(g3) == c.v(g3) % c.p)
+        d["canary.S.else_guard_determined"] = Implies(hyp, c.eva(g3) == (1 - c.v(g3)) % c.p)
+        return d
